@@ -19,28 +19,39 @@
 (* xref entry not consulted); FALSE the loader as it is (blocks sorted by   *)
 (* container number, compressed objects taken only from the container the   *)
 (* xref entry names).                                                       *)
+(*                                                                          *)
+(* Filtered loading (Document::load_filtered / Reader::read(Some(f))): the  *)
+(* caller's filter sees every parsed object and may drop it.  drop is the   *)
+(* set of numbers the filter drops (a pure function of the object, so the   *)
+(* same in every run): a dropped directly stored object is not collected, a *)
+(* dropped object stream is neither collected nor expanded (its members are *)
+(* never seen), a dropped member is removed from its block before the block *)
+(* is handed in.  drop = {} is the plain load.                              *)
 (***************************************************************************)
 EXTENDS Naturals, Sequences, FiniteSets, SequencesExt
 
-CONSTANTS Workers, Containers, Nums, DevFirstWins
+CONSTANTS Workers, Containers, Nums, DevFirstWins,
+          DropU                \* numbers a filter may drop (SUBSET (Nums \cup Containers)); {} = plain loads only
 
 Absent == 0
 Normal == 999
 
 VARIABLES xref, members,      \* the file (chosen in Init, then constant)
+          drop,               \* what the caller's filter drops (chosen in Init, then constant)
           pending,            \* Normal entries not yet taken: containers and directly stored numbers
           busy,               \* [Workers -> entry being parsed, or 0]
           direct,             \* directly stored objects parsed so far (set of numbers)
           blocks,             \* container numbers in the order their blocks were handed in
           result, pc
 
-plvars == <<xref, members, pending, busy, direct, blocks, result, pc>>
+plvars == <<xref, members, drop, pending, busy, direct, blocks, result, pc>>
 
 Entries == Containers \cup {n \in Nums : xref[n] = Normal}
 
 PLInit ==
     /\ xref \in [Nums -> {Absent, Normal} \cup Containers]
     /\ members \in [Containers -> SUBSET Nums]
+    /\ drop \in SUBSET DropU
     /\ pending = Containers \cup {n \in Nums : xref[n] = Normal}
     /\ busy = [w \in Workers |-> 0]
     /\ direct = {} /\ blocks = <<>> /\ result = <<>> /\ pc = "load"
@@ -48,16 +59,18 @@ PLInit ==
 Take(w, e) ==
     /\ pc = "load" /\ busy[w] = 0 /\ e \in pending
     /\ busy' = [busy EXCEPT ![w] = e] /\ pending' = pending \ {e}
-    /\ UNCHANGED <<xref, members, direct, blocks, result, pc>>
+    /\ UNCHANGED <<xref, members, drop, direct, blocks, result, pc>>
 
 \* the worker finished parsing: a container hands its block in (under the mutex), anything else is collected
 Finish(w) ==
     /\ pc = "load" /\ busy[w] # 0
-    /\ IF busy[w] \in Containers
+    /\ IF busy[w] \in drop
+       THEN UNCHANGED <<direct, blocks>>                         \* filter_func(..)? : neither collected nor expanded
+       ELSE IF busy[w] \in Containers
        THEN blocks' = Append(blocks, busy[w]) /\ UNCHANGED direct
        ELSE direct' = direct \cup {busy[w]} /\ UNCHANGED blocks
     /\ busy' = [busy EXCEPT ![w] = 0]
-    /\ UNCHANGED <<xref, members, pending, result, pc>>
+    /\ UNCHANGED <<xref, members, drop, pending, result, pc>>
 
 \* merge of the blocks in a given order into the map num -> <<where, num>> that already holds the direct objects
 MergeBlocks(order, dir, xr, mem, firstWins) ==
@@ -69,11 +82,14 @@ MergeBlocks(order, dir, xr, mem, firstWins) ==
             IN [n \in DOMAIN acc \cup new |-> IF n \in DOMAIN acc THEN acc[n] ELSE <<c, n>>]
     IN FoldLeft(addBlock, start, ord)
 
+\* the blocks as the workers hand them in: members the filter dropped are gone
+Kept(mem, dr) == [c \in DOMAIN mem |-> mem[c] \ dr]
+
 Merge ==
     /\ pc = "load" /\ pending = {} /\ \A w \in Workers : busy[w] = 0
-    /\ result' = MergeBlocks(blocks, direct, xref, members, DevFirstWins)
+    /\ result' = MergeBlocks(blocks, direct, xref, Kept(members, drop), DevFirstWins)
     /\ pc' = "done"
-    /\ UNCHANGED <<xref, members, pending, busy, direct, blocks>>
+    /\ UNCHANGED <<xref, members, drop, pending, busy, direct, blocks>>
 
 PLNext == (\E w \in Workers, e \in Entries : Take(w, e)) \/ (\E w \in Workers : Finish(w)) \/ Merge
 
@@ -81,11 +97,24 @@ PLNext == (\E w \in Workers, e \in Entries : Take(w, e)) \/ (\E w \in Workers : 
 (* Declarative layer *)
 
 \* the outcome of the single-worker run that parses the entries in ascending order
-SeqResult == MergeBlocks(SortSeq(SetToSeq(Containers), LAMBDA a, b : a < b), {n \in Nums : xref[n] = Normal}, xref, members, DevFirstWins)
+SeqResult == MergeBlocks(SortSeq(SetToSeq(Containers \ drop), LAMBDA a, b : a < b), {n \in Nums : xref[n] = Normal} \ drop,
+                         xref, Kept(members, drop), DevFirstWins)
+
+\* the plain load of the same file
+PlainResult == MergeBlocks(SortSeq(SetToSeq(Containers), LAMBDA a, b : a < b), {n \in Nums : xref[n] = Normal}, xref, members, DevFirstWins)
 
 Deterministic == pc = "done" => result = SeqResult
 
 \* C07's clause on this level: a compressed object comes from the container its xref entry names
 LatestWins == pc = "done" => \A n \in DOMAIN result :
                  (xref[n] \in Containers /\ n \in members[xref[n]]) => result[n] = <<xref[n], n>>
+
+\* Filtered loading is the plain load restricted: an object the file's cross-reference table lists is loaded
+\* exactly when the plain load has it and the filter drops neither it nor the object stream that holds it,
+\* and it is the same copy.  (Members no xref entry lists are taken from whichever kept stream comes first
+\* and are only required to be schedule-independent, by Deterministic.)
+FilterRestricts == (pc = "done" /\ ~DevFirstWins) => \A n \in Nums : xref[n] # Absent =>
+    LET src == IF n \in DOMAIN PlainResult THEN PlainResult[n][1] ELSE 0
+        exp == n \in DOMAIN PlainResult /\ n \notin drop /\ src \notin drop
+    IN (n \in DOMAIN result <=> exp) /\ (exp => result[n] = PlainResult[n])
 =============================================================================
